@@ -224,6 +224,11 @@ func RunPre[C any](t *testing.T, prop string, pre []C, gen func(*rapid.T) C, che
 	start := time.Now()
 	defer func() { writePartial(st, part, start) }()
 
+	for _, fd := range LoadFindings(prop) {
+		if fd.Status == "open" {
+			st.open[fd.ID] = true
+		}
+	}
 	if os.Getenv("VERIF_SKIP_FIXED") == "" {
 		replayCorpus(t, prop, st, part, check)
 		for _, c := range pre {
